@@ -94,6 +94,59 @@ CHECKS = {
             "axes subsets (negative too) x levels x real/complex: ||Wx|| = ||x||, W^H W x = x, "
             "<Wx,y> = <x,W^H y> at 1e-9 and exact advertised shape.",
             "DESIGN.md section 4, C10"),
+    "C11": ("icontract postcondition on the real Prox.__call__ evaluating per-class optimality "
+            "certificates (KKT / subgradient / Moreau conditions), a variational spot check "
+            "and a raised-for-well-formed-input wrapper, driven by hostile inputs",
+            "The contract runs for every proximal call of every workload; this check drives all "
+            "classes and nestings (Conj, Stack, UnitaryTransform, L2Reg with inner prox) with "
+            "gaussian, zero, exactly-on-threshold, ball-boundary, interior, tie and "
+            "repeated-eigenvalue inputs, scalar and array alpha, and certifies each result as "
+            "the minimiser at 1e-9; projections are also checked for idempotence; the "
+            "thresholding functions go through the same certificates.",
+            "DESIGN.md section 4, C11"),
+    "C12": ("offline trace checker over the recorded ConjugateGradient update history against a "
+            "dense A-orthonormal Arnoldi reference: Krylov optimality, monotone A-norm error, "
+            "tracked residual, local line-search optimality / conjugacy, in-place update, "
+            "breakdown behaviour on non-PD systems",
+            "State snapshots after every update of the real solver (n <= 12, cond <= 1e3, "
+            "real/complex, with/without preconditioner, Linop or function, all max_iter "
+            "classes) are compared with the exact Krylov-optimal iterate where a float64 drift "
+            "model (1e-12 kappa^(k/2) <= 1e-4) says the exact-arithmetic claim transfers; "
+            "monotonicity, residual identity, exact line search and A-conjugacy of successive "
+            "steps are checked at every step.",
+            "DESIGN.md section 4, C12"),
+    "C13": ("offline trace checkers over GradientMethod / PrimalDualHybridGradient histories: "
+            "monotone objective, ISTA/FISTA rate bounds (incl. Nesterov's worst-case quadratic "
+            "and long ill-conditioned runs), saddle-point invariance, Fejer monotonicity in the "
+            "shifted-pair M-norm, proximal-point residual rate, bounded progress",
+            "Every update of the real solvers is snapshotted at the API boundary and checked "
+            "against certified reference minimisers (prox-gradient residual <= 1e-10): objective "
+            "gap below the ISTA / FISTA bound at every k, no increase without acceleration, "
+            "PDHG started at a saddle stays there (also with gamma_primal/gamma_dual), the "
+            "M-norm distance and the fixed-point residual never increase with constant scalar "
+            "or array steps, and strongly convex problems reach 5 % of the initial error within "
+            "4000 updates (50x iteration slack).",
+            "DESIGN.md section 4, C13"),
+    "C14": ("reference-model monitor: documented objective at the returned x vs a certified "
+            "optimum (closed form, FISTA with certificate, or dense ADMM with Fenchel duality "
+            "gap <= 1e-10) over the solver x lamda x z x proxg x G x parameter cross product; "
+            "documented-exclusion-must-raise postcondition",
+            "Each case builds the real LinearLeastSquares for one configuration of the "
+            "quantifier's cross product, runs it with a stated iteration budget and requires "
+            "the documented objective at its output to be within 1e-8 (CG) / 1e-5 (GM, PDHG) / "
+            "1e-4 (ADMM) of the certified optimum; supported combinations must not raise, "
+            "excluded ones must.",
+            "DESIGN.md section 4, C14"),
+    "C15": ("trace monitor on Alg.update/Alg.done/App.run (exactly-once iteration counter, "
+            "logical-step update budget) plus offline checks: at most max_iter updates, run() "
+            "returns what the algorithm holds, early stop only at fixed points (two further "
+            "updates leave the solution unchanged), done() pure and monotone, power-iteration "
+            "estimate monotone and bounded",
+            "All 12 Alg subclasses (20 instance classes incl. zero start + sparsity prox + tiny "
+            "dual step, box corners, b = 0, x0 = x*) and 10 Apps are driven by the canonical "
+            "loop, App.run and random done/update interleavings for max_iter in {0,1,2,7,50}; "
+            "the update hook checks the counter on every Alg object of the process.",
+            "DESIGN.md section 4, C15"),
     "C05": ("reference-model monitor: explicit DFT-matrix oracle on generated shapes/axes/"
             "center/norm/oshape/dtype, plus round-trip, Parseval and dtype postconditions",
             "Every generated configuration is executed through the real fft/ifft (and linop.FFT/"
